@@ -3,7 +3,7 @@ import harness
 from facts import (norm, lit_value, call_name, short, subnodes, matches_on_type, lit_table, str_lits_in,
                    field_reads)
 from prov import Prov, has_field, has_call
-from templates import field_coverage
+from templates import field_coverage, LOSSY_OR_REORDERING
 
 TRAIT = "nitrogql_printer::graphql_printer::GraphQLPrinter"
 A = "nitrogql_ast::"
@@ -70,6 +70,24 @@ def r16a(P, R):
                     "print_string (single-line branch) has no escaping arm for %r, which the grammar's "
                     "NormalStringCharacter forbids raw: the printed literal does not re-parse to the same string" % ch,
                     loc=ps.loc())
+    # other control characters: written as a \\u escape whose digits are hexadecimal
+    for m in ms:
+        for lits, guard, catch, arm in lit_table(m):
+            if not (guard and any((call_name(n) or "").endswith("is_control") for n in subnodes(arm["guard"]))):
+                continue
+            pieces = str_lits_in(arm["body"])
+            fmt_calls = {(call_name(n) or "").split("::")[-1] for n in subnodes(arm["body"]) if n.get("k") == "Call" and "fmt::rt::Argument::" in (call_name(n) or "")}
+            hexa = bool(fmt_calls) and fmt_calls <= {"new_lower_hex", "new_upper_hex"}
+            brace = any(p_.endswith("\\u{") for p_ in pieces) and any(p_.startswith("}") for p_ in pieces)
+            if not any("\\u" in p_ for p_ in pieces):
+                R.violated("R16-a", "graphql-string:control-escape", "control characters are not written as a \\u escape (pieces %s)" % pieces, loc=ps.loc())
+            elif not hexa:
+                R.violated("R16-a", "graphql-string:control-escape", "the \\u escape of a control character formats its code point with %s, not in hexadecimal: "
+                           "U+000C is printed as `\\u0012` and read back as U+0012" % sorted(fmt_calls), loc=ps.loc())
+            elif brace:
+                R.holds("R16-a", "graphql-string:control-escape", "control characters -> \\u{hex}")
+            else:
+                R.undecided("R16-a", "graphql-string:control-escape", "fixed-width \\uXXXX form: width not decoded", loc=ps.loc())
     # block string: the `\"""` escape literal is pushed
     R.check("R16-a", "graphql-blockstring:triple-quote", '\\"""' in str_lits_in(ps.body),
             'block strings escape `"""` as `\\"""`', 'print_string never emits the `\\"""` escape for block strings', loc=ps.loc())
@@ -277,7 +295,34 @@ def r16c(P, R):
                 "server schema is printed into `%s`, not the template-literal writer" % wt, loc=rg.loc())
 
 
-RULES = [("R16-a", r16a), ("R16-b", r16b), ("R16-c", r16c), ("R16-e", r16e), ("R16-f", r16f)]
+def r16g(P, R):
+    """the model plugin's runtime-server transformation removes @model and nothing else: every component it rebuilds is rebuilt from
+    the same component of the same node"""
+    fs = [f for f in P.fns.values() if f.path.endswith("::transform_document_for_runtime_server") and "model_plugin" in f.path and not f.derived]
+    R.floor("R16-g", "model plugin runtime-server transformation", len(fs), 1)
+    for f in fs:
+        pv = Prov(f)
+        lits = [n for n in f.walk() if n.get("k") == "Struct" and "rest" not in n and n.get("base") is not None and norm(n.get("adt", "")).startswith(A)]
+        R.floor("R16-g", "functional-update literals", len(lits), 2)
+        for n in lits:
+            adt = norm(n["adt"])
+            base_locals = {y["local"] for y in subnodes(n["base"]) if y.get("k") == "Path" and "local" in y}
+            for fld in n["fields"]:
+                a = pv.atoms(fld["e"])
+                own = has_field(a, adt, fld["name"])
+                foreign = sorted((x[1].split("::")[-1], x[2]) for x in a if x[0] == "field" and x[2] == fld["name"] and x[1] != adt and x[1].startswith(A))
+                R.check("R16-g", "rebuilt:%s.%s" % (adt.split("::")[-1], fld["name"]), own and not (foreign and not own),
+                        "`%s` is rebuilt from the node's own `%s`" % (fld["name"], fld["name"]),
+                        "%s rebuilds %s.%s from %s instead of the node's own `%s`: the printed schema no longer denotes the checked one"
+                        % (f.path, adt.split("::")[-1], fld["name"], foreign or "other data", fld["name"]), loc=f.loc())
+        removed = sorted({x.get("v") for c in f.walk() if c.get("k") == "Binary" and c.get("op") in ("==", "!=") for x in subnodes(c) if x.get("k") == "Lit" and x.get("lk") == "str"})
+        R.check("R16-g", "removes-only-model", removed == ["model"], "only the `model` directive is filtered out",
+                "the transformation filters by names %s" % removed, loc=f.loc())
+        bad = [c["method"] for c in f.walk() if c.get("k") == "MethodCall" and c["method"] in (LOSSY_OR_REORDERING - {"filter"})]
+        R.check("R16-g", "no-other-loss", not bad, "no truncating/reordering adaptor", "the transformation applies %s" % bad, loc=f.loc())
+
+
+RULES = [("R16-a", r16a), ("R16-b", r16b), ("R16-c", r16c), ("R16-e", r16e), ("R16-f", r16f), ("R16-g", r16g)]
 EXPLANATION = (
     "Static necessary conditions for print/re-parse fidelity: (R16-a) escape tables — the single-line string printer has "
     "an escaping arm for every character the GraphQL grammar forbids raw, the block-string printer escapes the triple "
